@@ -37,7 +37,7 @@ def matches(finding, prop, ident):
     return all(ident.get(k) == v for k, v in finding.get("match", {}).items())
 
 
-def conclude(prop, tier, seed, result, wall):
+def conclude(prop, tier, seed, result, wall, replay=None):
     findings = load_findings()
     new = []
     known = {}
@@ -54,7 +54,8 @@ def conclude(prop, tier, seed, result, wall):
         print("KNOWN-FINDING: property=%s %s (%d cases)" % (prop, f.get("what", k), n))
     cov = dict(result.coverage)
     cov.setdefault("known_findings_reobserved", sum(n for _, n in known.values()))
-    props.write_evidence(prop, tier, seed, result.level, cov, wall, len(new), result.assumptions)
+    if not replay:      # a replay re-runs one recorded case: it must not replace the evidence of a full run
+        props.write_evidence(prop, tier, seed, result.level, cov, wall, len(new), result.assumptions)
     for n in result.notes:
         print(n)
     if not new:
